@@ -58,6 +58,28 @@ def phase_a(mod_names: List[str], key: str, timeout_ms: int):
         seen_pc[kpc] = (cr == "unsat")
         if cr == "unsat":
             info["infeasible_paths"] += 1  # a path the pruner kept but that cannot be taken; vacuity is judged per obligation below
+    # second vacuity guard: ground-expand the quantified facts of the path condition over a tiny universe that contains None and the
+    # string constants; `unsat` there means the assumed facts contradict each other (instances are consequences), which e-matching may
+    # or may not stumble on.  Quick tier: the two longest path conditions of the target (they carry the most axioms); thorough: all.
+    from .modelfind import ground_model_search
+    info["ground_canaries"] = 0
+    info["inconsistent_paths"] = []
+    cand = {}
+    for vc in vcs:
+        if isinstance(vc.formula, str):
+            continue
+        cand.setdefault(tuple(f.get_id() for f in vc.pc), vc)
+    order = sorted(cand.values(), key=lambda v: -len(v.pc))
+    if os.environ.get("VERIF_TIER_ACTIVE", "quick") != "thorough":
+        order = order[:2]
+    for vc in order:
+        try:
+            gr = ground_model_search(S, list(vc.pc), None, k=2, timeout_ms=4000, closure=False)
+        except Exception:
+            continue
+        info["ground_canaries"] += 1
+        if gr[0] == "unsat":
+            info["inconsistent_paths"].append(vc.path)
     results = []
     for idx, vc in enumerate(vcs):
         r = discharge(S, vc, timeout_ms=timeout_ms)
